@@ -236,6 +236,10 @@ func (x *Exec) analyze() (err error) {
 		}
 		for i, en := range con.Ensures {
 			name := fmt.Sprintf("%s#ensures%d", x.key, i+1)
+			if en.Assumed {
+				x.noteAssumption(x.key + ": assumed post-condition (not proved on the body): " + en.Text)
+				continue
+			}
 			s2 := o.st
 			t, e := env.evalBool(en.Expr)
 			if e != nil {
